@@ -5,8 +5,9 @@
 
    * The HashSet<ValidationIssue> is a list (consumers compare as sets; ValidationIssue's Eq
      compares names case-insensitively, results are compared after lower-casing names).
-   * Name::try_from_uncompressed_all on RDATA octets is the Section variable [parse]
-     (C14 verifies that function); the runner instantiates it with [parse_name_simple].
+   * Name::try_from_uncompressed_all on RDATA octets is the Section variable [parse]; its real
+     instance is Model/ZoneReal.v [parse_real] (C14's parse_uncompressed_name + label access), which
+     the runner uses and for which Proofs/ZoneRealP.v closes the theorems.
    * `?` on InvalidRdata aborts the whole validation: [collect] stops at the first error. *)
 From QV Require Import Base.Res Base.Octets Gen.ZoneConsts Model.ZoneTree.
 
@@ -137,8 +138,9 @@ Definition zone_validate (z : zone) : res zone_err (list issue) :=
 
 End V.
 
-(* The runner's instance of Name::try_from_uncompressed_all (NOT used by any theorem): labels of
-   1..63 octets, a terminating zero octet that is the last octet, at most 255 octets in all. *)
+(* A simplified stand-in for Name::try_from_uncompressed_all (first wave's runner instance; used only by
+   the example c21_example now): labels of 1..63 octets, a terminating zero octet that is the last
+   octet, at most 255 octets in all. *)
 Fixpoint parse_labels (fuel : nat) (b : bytes) : option name :=
   match fuel with
   | 0 => None
